@@ -1896,7 +1896,8 @@ pub fn sllv(
     let block_index = {
         let block = control_flow_graph.new_block()?;
 
-        block.assign(rd, Expr::shl(rt, rs)?);
+        // the shift amount is the low five bits of rs
+        block.assign(rd, Expr::shl(rt, Expr::and(rs, expr_const(0x1f, 32))?)?);
 
         block.index()
     };
@@ -2170,7 +2171,8 @@ pub fn srav(
     let block_index = {
         let block = control_flow_graph.new_block()?;
 
-        block.assign(rd, Expr::ashr(rt, rs)?);
+        // the shift amount is the low five bits of rs
+        block.assign(rd, Expr::ashr(rt, Expr::and(rs, expr_const(0x1f, 32))?)?);
 
         block.index()
     };
@@ -2220,7 +2222,8 @@ pub fn srlv(
     let block_index = {
         let block = control_flow_graph.new_block()?;
 
-        block.assign(rd, Expr::shr(rt, rs)?);
+        // the shift amount is the low five bits of rs
+        block.assign(rd, Expr::shr(rt, Expr::and(rs, expr_const(0x1f, 32))?)?);
 
         block.index()
     };
